@@ -11,7 +11,7 @@ package options
 //@ scan[cookie-options-writers] field-writers Cookie.* pkg/apis/options.cookieDefaults pkg/sessions/tests.*
 
 // reverse-proxy mode is fixed when the options are loaded
-//@ stable Options.ReverseProxy Options.SkipJwtBearerTokens Options.Cookie Options.HtpasswdUserGroups Options.LegacyPreferEmailToUser
+//@ stable Options.ReverseProxy Options.SkipJwtBearerTokens Options.Cookie Options.HtpasswdUserGroups Options.LegacyPreferEmailToUser Options.ForceHTTPS
 
 //@ prop C16
 //@ scan[real-client-ip-parser-writers] field-writers Options.realClientIPParser pkg/apis/options.(*Options).SetRealClientIPParser
